@@ -10,6 +10,11 @@ def expected_args(pid, desc):
     """the description-derived oracle input some checkers take"""
     if pid == "C01":
         return ["C01", [[a, b, c] for a, b, c, *_ in spec.owned(desc)]]
+    if pid == "C04":
+        g = spec.xy_grid(desc)
+        if g is None:
+            return None
+        return ["C04", [g[0], g[1], [[a, i, j, q] for a, i, j, q in g[2]]], [[a, b, c] for a, b, c, *_ in spec.owned(desc)]]
     if pid == "C07":
         return ["C07", [spec.camel(i["enum"]) for i in spec.instances(desc)]]
     return pid
@@ -57,6 +62,9 @@ def explore(pid, cases, rep, nontrivial, extra_checks=()):
         if not applicable(pid, r["algo"]):
             continue
         checks = [expected_args(pid, d)] + [expected_args(c, d) for c in extra_checks]
+        if checks[0] is None:
+            stats["outside_quantifier"] += 1
+            continue
         reqs.append("(chk " + r["nl"] + " " + " ".join(common.sx(c) for c in checks) + ")")
         idx.append(i)
     outs = common.run_model(reqs)
